@@ -105,6 +105,22 @@ def exprs(r, tier):
     for a, b in itertools.product(['0', '1', '0.0', '2.5', 'True', 'False', '0j', '1j', '2.5j', '10j'], repeat=2):
         for op in ('+', '-', '*'):
             out.append('%s%s%s' % (a, op, b))
+    # chains whose inner node is NOT folded (its value would print longer) followed by more operands: any regrouping or identity shortcut
+    # changes the value (float rounding), the type (bool -> int, int -> float) or makes a TypeError disappear
+    nasty = ['0.1', '-0.1', '0.7', '1e16', '-1e16', '1e-16', '0.3', '1/3' if False else '3.3', '9007199254740993', '2.5j', 'True', 'False', 'None', '1.5', '-0.0']
+    small = ['0', '1', '2', '3', '5', '10', '-1', '1.0', '0.0', 'True']
+    chains = []
+    for x in nasty:
+        for op in ('+', '*', '-', '|', '<<', '&', '^', '>>', '//', '%'):
+            for c1, c2 in (('3', '5'), ('1', '1'), ('0', '1'), ('1', '0'), ('2', '0.5'), ('1', '1e16'), ('0', '0')):
+                chains.append('%s%s%s%s%s' % (x, op, c1, op, c2))
+                chains.append('%s%s(%s%s%s)' % (x, op, c1, op, c2))
+            for c in small:
+                chains.append('%s%s%s' % (x, op, c))
+                chains.append('%s%s%s' % (c, op, x))
+    if tier == 'quick':
+        chains = [e for i, e in enumerate(chains) if i % 5 == common.seed() % 5 or e.startswith(('-0.1*', '1e16', '-1e16+', 'True+', 'True*', '1.5|', 'None+'))]
+    out += chains
     n = 250 if tier == 'quick' else 6000
     for _ in range(n):
         out.append(gen_expr(r, r.choice([1, 2, 2, 3])))
